@@ -2026,7 +2026,7 @@ func main() {
 	})
 	run.Count("max_depth_reached", int64(globalDepth))
 	// class "read-fault" (readfault.go): scanning operations while a read of the table files fails
-	readFaultCases(run, root, nSeq, run.N(12, 180))
+	readFaultCases(run, root, nSeq, run.N(14, 210))
 	if run.Only < 0 {
 		if run.Counter("read_fault_cases") > 0 && run.Counter("read_fault_cases_fault_fired") == 0 {
 			run.Inconclusive("read-fault class: the injected read error fired in no case")
